@@ -16,6 +16,7 @@ CONSTANTS
   Hyp_RhsCachedByName = FALSE
   Hyp_SteadyOneShot = FALSE
   Hyp_SettingsSurviveReparse = FALSE
+  Hyp_TraceNeedsStepLog = FALSE
 INVARIANT TypeOK
 INVARIANT C17_HistoryIndependent
 INVARIANT C17_ReparseClean
